@@ -113,6 +113,9 @@ func processPrelude() {
 	if errs := preludeSchema.Parse(map[string]any{"user": map[string]any{"name": "ab", "tags": []any{"x"}}, "age": 3}, &d); errs != nil {
 		z.Issues.CollectMap(errs)
 	}
+	if errs := preludeSchema.Parse(map[string]any{"user": map[string]any{"name": "abc"}}, &d); errs != nil {
+		_ = z.Issues.SanitizeMapAndCollect(errs) // ... and one through the sanitizing helper
+	}
 	func() {
 		defer func() { _ = recover() }()
 		var d2 preludeDest
